@@ -72,6 +72,11 @@ STRENGTHENED = {
     "C04w7-found-incl-per-platform": "C04: for half of the two-directory search lists the companion command belongs to the same platform (twin translation unit, list reversed; expectation = union) — C08 and C13 already reported it",
     "C01w7-expansion-skipped-when-nothing-defined": "C01: `!defined A && defined B` (paren-less `defined` followed by operands that decide)",
     "C01w7-div-by-zero-raises": "C01: guard idiom `A != 0 && 10 / A > 1` (C02 already reported it)",
+    "C10w8-walk-skips-by-basename": "C10: two directories of the same name at different depths, with `/gen/`, `/gen` and `gen/` (C09 already reported it)",
+    "C10w8-forced-include-not-inserted": "C10: a macro header that one command reaches through `-include` only",
+    "C12w8-entry-dedup-ignores-include-files": "C12: end-to-end case with a user-defined pass that differs from the default pass in its forced include only; C08: the same file with two different `-include` options",
+    "C13w8-own-directory-dropped-from-I": "C13: `-I .` naming the compiled file's own directory, needed by an angle include",
+    "C14w8-process-wide-miss-cache": "C14: a platform that cannot reach a header the others find through `-I`; a repeat of the same schedule in one process that differs is now a violation of its own (it used to stop the check as a harness error) — C18 already reported it",
     "C11-split-fast-path": "C11: backslash-escaped and double-quoted renderings of the command string",
 }
 
